@@ -1,7 +1,7 @@
 (* C06 (PARTIAL: proved fragment = guard arithmetic only).  Scanning arbitrary bytes with any module is
    memory-safe and terminates.  Proved here, about models regenerated from the source on every run
    (gen/GenBounds.v) and the hand model Model/PeRva.v: the bounds predicates are sound in exact
-   unsigned/pointer arithmetic (or refuted with a witness), pe_rva_to_offset only returns offsets
+   unsigned/pointer arithmetic, pe_rva_to_offset only returns offsets
    inside the file, its section loop is capped by MAX_PE_SECTIONS.
    NOT proved: that every dereference of the module parsers is dominated by such a predicate; absence of
    use-after-free / uninitialised reads / leaks; termination of the C.  checks/c06.py explores those. *)
@@ -21,19 +21,19 @@ Theorem fits_in_dex_sound : forall base size p n,
 Proof. exact fits_in_dex_sound_l. Qed.
 Print Assumptions fits_in_dex_sound.
 
-(* elf.c is_valid_ptr: the full statement is refuted by the faithful model (the sum ptr + ptr_size wraps) *)
-Theorem is_valid_ptr_refuted : exists base size ptr n,
-  addr_space_ok base size /\ is_u64 ptr /\ is_u64 n /\
-  is_valid_ptr base size ptr n = true /\ ~ (base <= ptr /\ ptr + n <= base + size).
-Proof. exact is_valid_ptr_refuted_l. Qed.
-Print Assumptions is_valid_ptr_refuted.
-
-Theorem is_valid_ptr_sound_partial : forall base size ptr n,
+(* elf.c is_valid_ptr as it is written now (repaired in /repo 4d21781: no pointer sum that can wrap) *)
+Theorem is_valid_ptr_sound : forall base size ptr n,
   addr_space_ok base size -> is_u64 ptr -> is_u64 n ->
-  ptr + n < M64 ->
   is_valid_ptr base size ptr n = true -> base <= ptr /\ ptr + n <= base + size.
-Proof. exact is_valid_ptr_sound_partial_l. Qed.
-Print Assumptions is_valid_ptr_sound_partial.
+Proof. exact is_valid_ptr_sound_l. Qed.
+Print Assumptions is_valid_ptr_sound.
+
+(* the pinned 4.5.2 text of the predicate (kept verbatim in Proofs/BoundsProofs.v) was not sound: witness *)
+Theorem is_valid_ptr_pinned_refuted : exists base size ptr n,
+  addr_space_ok base size /\ is_u64 ptr /\ is_u64 n /\
+  is_valid_ptr_pinned base size ptr n = true /\ ~ (base <= ptr /\ ptr + n <= base + size).
+Proof. exact is_valid_ptr_pinned_refuted_l. Qed.
+Print Assumptions is_valid_ptr_pinned_refuted.
 
 Theorem macho_range_sound : forall data size command parsed_size cmdsize offset asize,
   addr_space_ok data size -> data + size + sizeof_yr_load_command_t < M64 ->
